@@ -130,7 +130,7 @@ def op_misc(p):
                            st.sampled_from(["off", "on", "disable", "enable", "off now", "on again", "off", "on",
                                             "", "", "", "now", "offline", "foo", " off", "disabled", "OFF", "lights off", "not on", "turn off now"]),
                            st.sampled_from(["ExcludeRegion"] * 5 + ["excluderegion", "Other", "Other", "Exclude"]),
-                           st.booleans() if p["streaming"] else st.just(False)))]
+                           st.sampled_from([False, False, True, True, "paused"]) if p["streaming"] else st.sampled_from([False] * 9 + ["paused"])))]
     if p.get("set_at"):
         entry = st.fixed_dictionaries({
             "command": st.sampled_from(["ExcludeRegion", "ExcludeRegion", "Other", "Exclude"]),
@@ -521,9 +521,9 @@ class Renderer(object):  # pylint: disable=too-many-instance-attributes
                 params = "foo"
             item = ["at", cmd, params]
             if streaming:
-                item.append(True)
+                item.append(streaming)          # True: streaming to SD; "paused": the print is paused when it arrives
             self.prog.append(item)
-            for act in self.atm.actions(cmd, params, streaming):
+            for act in self.atm.actions(cmd, params, streaming is True):
                 if act == "disable":
                     self.enabled = False
                     self.open = False
